@@ -74,6 +74,9 @@ func (x *Exec) handler() fakesql.Handler {
 			}
 			return res, nil
 		}
+		if !bookkeepingRe.MatchString(q) {
+			theGate.hit(x.single.Name, "db:statement") // both names of one Exec belong to one request stream
+		}
 		r, err := cell.DB.Query(q)
 		if bookkeepingRe.MatchString(q) {
 			x.mu.Lock()
